@@ -135,11 +135,60 @@ def one_trace(g: fx.Graph, h: str, rtol: Tuple[int, int], targets: List[Any]) ->
     return rec
 
 
+def table_trace(g: fx.Graph) -> Optional[Dict[str, Any]]:
+    """Growth item: analysis.graph_to_dataframe applied to the float-only graph, as analysis.plot does."""
+    import math
+
+    from unit_scaling.analysis import graph_to_dataframe
+    from unit_scaling.transforms import Metrics, prune_non_float_tensors
+
+    absg, ids = fxgen.fx_to_abs(g)
+    rec: Dict[str, Any] = {"h": "table", "rtol": [0, 1], "targets": [], "g": absg, "out": [], "err": "", "after": [], "rows": []}
+    try:
+        g1 = prune_non_float_tensors(g)
+    except Exception:
+        return None   # judged by the non_float trace
+    by_clean: Dict[str, List[fx.Node]] = {}
+    for n in g1.nodes:
+        by_clean.setdefault(n.meta.get("clean_name", n.name), []).append(n)
+    if any(len(v) > 1 for v in by_clean.values()):
+        return None   # clean names collide: rows cannot be attributed by name
+    try:
+        df = graph_to_dataframe(g1)
+    except Exception as ex:
+        rec["err"] = f"{type(ex).__name__}: {str(ex)[:150]}"
+        return rec
+    names, full = Metrics.names(), Metrics.full_names()
+    for _, row in df.iterrows():
+        cands = by_clean.get(row["layer"], [])
+        n = cands[0] if cands else None
+        d = getattr(n.meta["metrics"], row["direction"], None) if n is not None and row["direction"] in ("fwd", "bwd") else None
+        val = row[full[names.index("mean_abs")]]
+        others = True
+        for m, fm in zip(names, full):
+            v = row[fm]
+            e = getattr(d, m) if d is not None else None
+            isnone = v is None or (isinstance(v, float) and math.isnan(v) and (e is None or not (isinstance(e, float) and math.isnan(e))))
+            if e is None:
+                others = others and (v is None or (isinstance(v, float) and math.isnan(v)))
+            elif isinstance(e, float) and math.isnan(e):
+                others = others and isinstance(v, float) and math.isnan(v)
+            else:
+                others = others and (not isnone) and float(v) == float(e)
+        rec["rows"].append({"id": ids[n.name] if n is not None else 0, "weight": bool(row["weight tensor"]), "dir": str(row["direction"]), "type": str(row["tensor type"]),
+                            "val": fxgen.rat(None if (val is None or (isinstance(val, float) and math.isnan(val))) else float(val)),
+                            "name_ok": n is not None and row["layer"] == n.meta.get("clean_name"), "others_ok": bool(others)})
+    return rec
+
+
 def traces_for_graph(g: fx.Graph, rng: random.Random) -> List[Dict[str, Any]]:
     absg, _ = fxgen.fx_to_abs(g)
     if not exact_metrics(absg, g):
         return []
     tr = [one_trace(g, "non_float", (0, 1), [])]
+    tt = table_trace(g)
+    if tt is not None:
+        tr.append(tt)
     for rt in RTOLS:
         if not threshold_ambiguous(absg, rt):
             tr.append(one_trace(g, "same_scale", rt, []))
@@ -182,9 +231,12 @@ def run(rep: Report, tier: str) -> None:
             t = batch[l - 1]
             if clause.startswith("spec_") or clause.startswith("harness_"):
                 raise common.MachineryError(f"Prune_Trace: {clause} on {json.dumps(t)[:800]}")
+            if clause.startswith("table_"):   # graph_to_dataframe is outside C19's statement
+                rep.beyond(f"analysis.graph_to_dataframe: {clause}{' -- ' + t['err'] if t['err'] else ''}; graph targets={[n['tgt'] for n in t['g']]}")
+                continue
             rep.violation(f"{t['h']} (rtol={t['rtol']}, targets={t['targets']}): {clause}{' -- ' + t['err'] if t['err'] else ''}; graph targets={[n['tgt'] for n in t['g']]}",
                           t, key=f"{clause}:{t['h']}")
-    rep.extra["traces_by_helper"] = {h: sum(1 for t in traces if t["h"] == h) for h in ("non_float", "same_scale", "selected")}
+    rep.extra["traces_by_helper"] = {h: sum(1 for t in traces if t["h"] == h) for h in ("non_float", "same_scale", "selected", "table")}
     rep.rule = "tracked graphs of random modules with 1-10 ops (direct backend; a few through TorchDynamo) x {non_float, same_scale x 3 rtols, selected x 2 random target sets}; graphs whose metrics sit within 1e-9 of an rtol threshold are skipped for that rtol; non-trivial = graphs with >= 5 nodes"
     if traces:
         t = traces[len(traces) // 2]
